@@ -107,6 +107,9 @@ CH = {
     'stat_count_min': ('<dtml-in seq><dtml-if sequence-end><dtml-var min-secret>|<dtml-var count-secret></dtml-if></dtml-in>', lambda s, c: dict(seq=two(s, c)), ('secret',), ()),
     'sort_single': ('<dtml-in seq sort=secret><dtml-var pub>,</dtml-in>', lambda s, c: dict(seq=two(s, c)), ('secret',), ()),
     'sort_multi': ('<dtml-in seq sort=secret,pub><dtml-var pub>,</dtml-in>', lambda s, c: dict(seq=two(s, c)), ('secret',), ()),
+    # items of the NEXT / PREVIOUS batch are fetched with plain indexing for the batch-boundary variables
+    'batch_boundary_item': ('<dtml-in seq size=1 skip_unauthorized><dtml-var next-sequence-start-item missing="-">,</dtml-in>', lambda s, c: dict(seq=[Item(secret='x', pub='p0'), Item(secret='y', pub=s, forbidden=True)]), (), ()),
+    'batch_boundary_var': ('<dtml-in seq size=1 skip_unauthorized><dtml-var next-sequence-start-var-pub missing="-">,</dtml-in>', lambda s, c: dict(seq=[Item(secret='x', pub='p0'), Item(secret='y', pub=s, forbidden=True)]), (), ()),
     'tree_sort': ('<dtml-tree root sort=secret><dtml-var pub></dtml-tree>', lambda s, c: dict(root=Item(pub='r', _kids=[Item(pub='k0', secret=s, _kids=[]), Item(pub='k1', secret=c, _kids=[])]), URL='u', RESPONSE=Response(), expand_all=1), ('secret',), ()),
 }
 # the same channels read AFTER an unrestricted template (plain HTML, no guards) was rendered into the shared namespace, by name and
